@@ -31,6 +31,20 @@ ASSUMPTIONS = [
     "skipped as oracle-unreliable (counted)",
     "float64 only (finite differences of float32 prices cannot resolve a Greek)",
 ]
+ANCHORS = ['pfhedge.nn.functional:bs_european_delta',
+           'pfhedge.nn.functional:bs_european_gamma',
+           'pfhedge.nn.functional:bs_european_vega',
+           'pfhedge.nn.functional:bs_european_theta',
+           'pfhedge.nn.functional:bs_european_binary_delta',
+           'pfhedge.nn.functional:bs_european_binary_gamma',
+           'pfhedge.nn.functional:bs_american_binary_delta',
+           'pfhedge.nn.functional:bs_american_binary_gamma',
+           'pfhedge.autogreek:delta',
+           'pfhedge.autogreek:gamma',
+           'pfhedge.autogreek:vega',
+           'pfhedge.autogreek:theta',
+           'pfhedge._utils.parse:parse_spot',
+           'pfhedge._utils.parse:parse_volatility']
 DECIDING = ["greek.european", "greek.european_binary", "greek.american_binary", "greek.lookback", "autogreek.delta", "autogreek.gamma",
             "autogreek.vega", "autogreek.theta", "autogreek.gamma_from_delta"]
 REQUIRED_BRANCHES = ["t!=1", "K!=1", "put", "american_binary.reached_spot_below", "via.module", "via.functional"]
